@@ -69,9 +69,11 @@ def runCase (payload : String) : String :=
   let w := field fs "w"
   let c : Cfg := { seed := field fs "seed", sinks := field fs "sinks", ev := field fs "ev",
                    ff := field fs "ff" = 1, glob := field fs "glob" = 1, heavy := fieldStr fs "body" = "heavy",
-                   shadow := field fs "shadow" = 1, featC := (fieldStr fs "feat").contains 'c' }
+                   shadow := field fs "shadow" = 1 || (fieldStr fs "feat").contains 'l', featC := (fieldStr fs "feat").contains 'c',
+                   featG := (fieldStr fs "feat").contains 'g' && (fieldStr fs "feat").contains 'c' }
   if w = 0 ∨ c.ev = 0 ∨ c.sinks = 0 then "bad-payload" else
   line c ++ (if modelConsistent c w then "" else " MODEL-INCONSISTENT")
+    ++ (if c.featG && line c true != line c then "\tkf=error-lost-under-nested-instance-state\tspec=" ++ line c true else "")
     ++ (if w ≥ 2 ∧ field fs "h" * (max 1 (field fs "burst")) ≥ 2 ∧ c.ev ≥ 100 then "\tnt=1" else "")
 
 def run (_args : List String) : IO Unit := lineLoop runCase
